@@ -213,6 +213,29 @@ Definition pivot_model (f1 f2 f3 : val) (agg : Z) (missing : val) (presorted : b
   end.
 
 (* ---- unpack --------------------------------------------------------------------------------------------------------- *)
+(* what unpack keeps of a row: everything, or everything but the unpacked field *)
+Definition unpack_keep (include_original : bool) (i : Z) (r : row) : row :=
+  if include_original then r
+  else map snd (filter (fun p => negb (fst p =? i)) (combine (zrange (length r) 0) r)).
+
+(* the cells unpacked from one value: the first n items of a sequence / characters of a text, padded with `missing` *)
+Definition unpack_cells (n : nat) (missing : val) (v : val) : res row :=
+  match v with
+  | VSeq _ l => Ok (if (0 <? n)%nat then (if (n <=? length l)%nat then firstn n l else l ++ repeat missing (n - length l)) else [])
+  | VStr s => Ok (if (0 <? n)%nat then (if (n <=? length s)%nat then [VStr (firstn n s)]
+                                         else map (fun c => VStr [c]) s ++ repeat missing (n - length s)) else [])
+  | _ => Err TypeErr
+  end.
+
+Definition unpack_row (include_original : bool) (i : Z) (n : nat) (missing : val) (r : row) : res row :=
+  match py_nth r i with
+  | None => Err IndexErr
+  | Some v => match unpack_cells n missing v with
+              | Ok cells => Ok (unpack_keep include_original i r ++ cells)
+              | Err e => Err e
+              end
+  end.
+
 Definition unpack_model (field : val) (newfields : list val) (include_original : bool) (missing : val) (t : table) : gen :=
   let '(hdr, rows) := match t with [] => ([], []) | h :: r => (h, r) end in
   let flds := map hdr_text hdr in
@@ -223,25 +246,11 @@ Definition unpack_model (field : val) (newfields : list val) (include_original :
   match fi with
   | None => ([], Some ArgumentErr)
   | Some i =>
-      let keep := fun (r : row) => if include_original then r
-                                   else map snd (filter (fun p => negb (fst p =? i)) (combine (zrange (length r) 0) r)) in
       let outhdr := (if include_original then flds
                      else match py_index (match py_nth flds i with Some f => f | None => VNone end) flds with
                           | Some j => map snd (filter (fun p => negb (fst p =? j)) (combine (zrange (length flds) 0) flds))
                           | None => flds end) ++ newfields in
-      let n := length newfields in
-      let '(o, e) := map_rows (fun r =>
-        match py_nth r i with
-        | None => Err IndexErr
-        | Some (VSeq _ l) => Ok (keep r ++ (if (0 <? n)%nat then
-                                              (if (n <=? length l)%nat then firstn n l else l ++ repeat missing (n - length l))
-                                            else []))
-        | Some (VStr s) => Ok (keep r ++ (if (0 <? n)%nat then
-                                            (if (n <=? length s)%nat then [VStr (firstn n s)]
-                                             else map (fun c => VStr [c]) s ++ repeat missing (n - length s))
-                                          else []))
-        | Some _ => Err TypeErr
-        end) rows in
+      let '(o, e) := map_rows (unpack_row include_original i (length newfields) missing) rows in
       (outhdr :: o, e)
   end.
 
